@@ -218,10 +218,15 @@ SubmitRecord MempoolSim::SubmitTx(const CTransactionRef& tx, bool test_accept, i
     }
     node().DrainSignals();
     if (cfg.snapshots) {
+        // memory usage is the very first read: Snapshot() (entryAll -> CompareMainOrder) and GetFeerateDiagram() both
+        // relinearise clusters, which changes DynamicMemoryUsage() by a few hundred bytes
+        {
+            LOCK2(cs_main, pool().cs);
+            r.usage_after = pool().DynamicMemoryUsage();
+            r.minfee_after = pool().GetMinFee();
+        }
         r.after = Snapshot();
         LOCK2(cs_main, pool().cs);
-        r.usage_after = pool().DynamicMemoryUsage();
-        r.minfee_after = pool().GetMinFee();
         r.diagram_after = pool().GetFeerateDiagram();
     }
     const char* rt = r.result_type == MempoolAcceptResult::ResultType::VALID ? "VALID" : r.result_type == MempoolAcceptResult::ResultType::INVALID ? "INVALID" : r.result_type == MempoolAcceptResult::ResultType::MEMPOOL_ENTRY ? "MEMPOOL_ENTRY" : "DIFFERENT_WITNESS";
@@ -265,10 +270,15 @@ SubmitRecord MempoolSim::SubmitPackage(const std::vector<CTransactionRef>& txs, 
     }
     node().DrainSignals();
     if (cfg.snapshots) {
+        // memory usage is the very first read: Snapshot() (entryAll -> CompareMainOrder) and GetFeerateDiagram() both
+        // relinearise clusters, which changes DynamicMemoryUsage() by a few hundred bytes
+        {
+            LOCK2(cs_main, pool().cs);
+            r.usage_after = pool().DynamicMemoryUsage();
+            r.minfee_after = pool().GetMinFee();
+        }
         r.after = Snapshot();
         LOCK2(cs_main, pool().cs);
-        r.usage_after = pool().DynamicMemoryUsage();
-        r.minfee_after = pool().GetMinFee();
         r.diagram_after = pool().GetFeerateDiagram();
     }
     size_t nvalid = 0;
